@@ -24,8 +24,14 @@ enum Ctx {
     FunctionCalledInLoop,
     /// a function whose body holds a for loop (two iterations) around the site
     LoopInFunction,
+    /// the failing command is the condition of if / elseif / while, or the operand of not: the wrapping
+    /// library command reports the error on its own line, and the script goes on with the next line
+    CondIf,
+    CondElseIf,
+    CondWhile,
+    NotOperand,
 }
-const CTXS: [Ctx; 10] = [
+const CTXS: [Ctx; 14] = [
     Ctx::Top,
     Ctx::Function,
     Ctx::ForBody,
@@ -36,6 +42,10 @@ const CTXS: [Ctx; 10] = [
     Ctx::Included,
     Ctx::FunctionCalledInLoop,
     Ctx::LoopInFunction,
+    Ctx::CondIf,
+    Ctx::CondElseIf,
+    Ctx::CondWhile,
+    Ctx::NotOperand,
 ];
 
 #[derive(Clone, Copy, Debug, PartialEq, Eq, Hash)]
@@ -57,6 +67,7 @@ struct Built {
     /// per site: (message, 1-based line, file index or None for the main text)
     expect: Vec<(String, usize, usize)>,
     counters: Vec<(String, String)>,
+    ctxs: Vec<Ctx>,
 }
 
 const REAL_FAILING: &str = "array_pop nohandle";
@@ -227,6 +238,40 @@ fn build(sites: &[Site], exit_mode: u8, mode: RunMode, real_msg: &str, inc_prefi
                 block.extend(probes(i));
                 block.push("end".into());
             }
+            Ctx::CondIf | Ctx::CondElseIf | Ctx::CondWhile | Ctx::NotOperand => {
+                // the failing command without its output variable, in front of it the wrapping keyword
+                let bare = line.splitn(2, " = ").nth(1).unwrap_or(&line).to_string();
+                pad(&mut block);
+                match s.ctx {
+                    Ctx::CondIf => {
+                        site_idx = block.len();
+                        block.push(format!("if {}", bare));
+                        block.extend(probes(i));
+                        block.push("end".into());
+                    }
+                    Ctx::CondElseIf => {
+                        block.push("if false".into());
+                        block.push("y = set 1".into());
+                        site_idx = block.len();
+                        block.push(format!("elseif {}", bare));
+                        block.extend(probes(i));
+                        block.push("end".into());
+                    }
+                    Ctx::CondWhile => {
+                        site_idx = block.len();
+                        block.push(format!("while {}", bare));
+                        block.extend(probes(i));
+                        block.push(format!("goto :past{}", i));
+                        block.push("end".into());
+                        block.push(format!(":past{}", i));
+                    }
+                    _ => {
+                        site_idx = block.len();
+                        block.push(format!("o{} = not {}", i, bare));
+                        block.extend(probes(i));
+                    }
+                }
+            }
             Ctx::Included => {
                 let mut inc: Vec<String> = vec![];
                 pad(&mut inc);
@@ -255,13 +300,13 @@ fn build(sites: &[Site], exit_mode: u8, mode: RunMode, real_msg: &str, inc_prefi
     if mode == RunMode::FileIncluding {
         out.push(("root.ds".into(), "# root\n!include_files ./main.ds\nroot_done = set yes".into()));
     }
-    Built { files: out, expect, counters }
+    Built { files: out, expect, counters, ctxs: sites.iter().map(|s| s.ctx).collect() }
 }
 
 pub fn bounds(tier: Tier) -> Value {
     match tier {
-        Tier::Quick => json!({"sites_per_program": 2, "contexts": 10, "error_kinds": 4, "leading_lines": ["none", "blank", "blank+comment", "set_error+exit_on_error query"], "exit_on_error_schedules": 4, "run_modes": 3}),
-        Tier::Thorough => json!({"sites_per_program": 3, "contexts": 10, "error_kinds": 4, "leading_lines": ["none", "blank", "blank+comment", "set_error+exit_on_error query"], "exit_on_error_schedules": 4, "run_modes": 3}),
+        Tier::Quick => json!({"sites_per_program": 2, "contexts": 14, "error_kinds": 4, "leading_lines": ["none", "blank", "blank+comment", "set_error+exit_on_error query"], "exit_on_error_schedules": 4, "run_modes": 3}),
+        Tier::Thorough => json!({"sites_per_program": 3, "contexts": 14, "error_kinds": 4, "leading_lines": ["none", "blank", "blank+comment", "set_error+exit_on_error query"], "exit_on_error_schedules": 4, "run_modes": 3}),
     }
 }
 
@@ -385,7 +430,8 @@ fn execute(b: &Built, exit_mode: u8, mode: RunMode, scratch: &std::path::Path, s
             }
             for (i, (msg, line, fi)) in b.expect.iter().enumerate() {
                 let get = |k: &str| vars.get(&format!("{}{}", k, i)).cloned();
-                if get("o") != Some("false".into()) {
+                let has_output = !matches!(b.ctxs.get(i), Some(Ctx::CondIf) | Some(Ctx::CondElseIf) | Some(Ctx::CondWhile));
+                if has_output && get("o") != Some("false".into()) {
                     return Err(("output-not-false".into(), format!("site {}: output variable is {:?}", i, get("o"))));
                 }
                 if get("e") != Some(msg.clone()) {
@@ -515,6 +561,9 @@ pub fn worker(w: &mut Worker) {
             if kind == 4 && (ctx == Ctx::Top || ctx == Ctx::Included) {
                 continue; // the same as the ScriptCommand context
             }
+            if matches!(ctx, Ctx::CondIf | Ctx::CondElseIf | Ctx::CondWhile | Ctx::NotOperand) && (kind == 1 || kind == 3) {
+                continue; // three kinds of failing command in condition position
+            }
             for blanks in 0..4u8 {
                 variants.push(Site { ctx, kind, blanks });
             }
@@ -535,6 +584,10 @@ pub fn worker(w: &mut Worker) {
     }
     for a in &variants {
         for b in &variants {
+            // in pairs the second site comes without lines in front or with the neutral statements
+            if tier == Tier::Quick && (b.blanks == 1 || b.blanks == 2) {
+                continue;
+            }
             go(w, &[*a, *b]);
         }
     }
@@ -598,7 +651,7 @@ pub fn crash_sig(_case: &Value, kind: &str) -> String {
     kind.to_string()
 }
 
-pub const RULE: &str = "programs: every sequence of 1..k error sites, each site = context {top level, function body, for body, while body, if branch, else branch, inside a script-implemented library command, included file, a function called from a loop, a loop inside a function} x error kind {trigger_error, assert_error with a message containing a space, a real failing command, a message containing the literal text ${x}, a failing script-implemented command} x lines in front of the site {none, a blank line, blank + comment, `set_error` + an `exit_on_error` query (statements that touch the error record and the mode without being errors)}; each site assigns an output variable and is followed by get_last_error / get_last_error_line / get_last_error_source probes; x exit_on_error schedule {never, on from the start, turned on after the first site, on then off before the first site} x run mode {text (included files named by absolute path), file, file that includes the file with the sites}. Oracle (error protocol): output variable 'false'; message, 1-based line and source file of the instruction the runner was executing (the caller's line for the script-implemented command, the included file's own path and line for included code); the latest error wins; the script reaches its last line and the enclosing blocks go on as written (a for body with two elements and a while body run twice, the else branch of an if whose then-branch failed does not run); under exit_on_error the run fails with Runtime(message, line, source) of the first error after it was turned on, and the text the failure is reported with contains that message and line. Scale cases: 300/3000 (thorough 30000) errors raised in a loop and on as many different lines (the latest wins, with its line), and a fatal error that far down after exit_on_error. evaluations = programs run";
-pub const ASSUMPTIONS: &[&str] = &["the message of the real failing command is taken from running that command alone (differential)", "failing commands are not placed in condition position (an error raised by a condition is outside the property)"];
+pub const RULE: &str = "programs: every sequence of 1..k error sites, each site = context {top level, function body, for body, while body, if branch, else branch, inside a script-implemented library command, included file, a function called from a loop, a loop inside a function, as the condition of if / elseif / while and as the operand of not} x error kind {trigger_error, assert_error with a message containing a space, a real failing command, a message containing the literal text ${x}, a failing script-implemented command} x lines in front of the site {none, a blank line, blank + comment, `set_error` + an `exit_on_error` query (statements that touch the error record and the mode without being errors)}; each site assigns an output variable and is followed by get_last_error / get_last_error_line / get_last_error_source probes; x exit_on_error schedule {never, on from the start, turned on after the first site, on then off before the first site} x run mode {text (included files named by absolute path), file, file that includes the file with the sites}. Oracle (error protocol): output variable 'false'; message, 1-based line and source file of the instruction the runner was executing (the caller's line for the script-implemented command, the included file's own path and line for included code); the latest error wins; the script reaches its last line and the enclosing blocks go on as written (a for body with two elements and a while body run twice, the else branch of an if whose then-branch failed does not run); under exit_on_error the run fails with Runtime(message, line, source) of the first error after it was turned on, and the text the failure is reported with contains that message and line. Scale cases: 300/3000 (thorough 30000) errors raised in a loop and on as many different lines (the latest wins, with its line), and a fatal error that far down after exit_on_error. evaluations = programs run";
+pub const ASSUMPTIONS: &[&str] = &["the message of the real failing command is taken from running that command alone (differential)", "a failing command in condition position makes the wrapping library command (if / elseif / while / not) report that error on its own line; the script then goes on with the next line, which is the first line of the body (what the body's own end / else lines do afterwards is not looked at: the generated blocks have no else and a while body leaves through goto)"];
 pub const EXHAUSTIVE: bool = true;
 pub const WALL_CAP_S: (u64, u64) = (55, 1500);
